@@ -3,7 +3,7 @@
 import ast
 
 from ..report import Finding
-from ..rules import r_dispatch
+from ..rules import r_dispatch, r_live
 from . import family_a
 
 
@@ -36,4 +36,8 @@ def _tables(db, res, tier, scope):
 
 def run(db, res, tier):
   family_a.run_family(db, res, tier, "C04", extra=_tables)
-  res.rule_text += "; R-DISPATCH.3: MJ_COLLISION_TABLE (and its run-time reroute) and _PRIMITIVE_COLLISIONS agree"
+  # contact records: every kernel that hands out a contact slot defines every Contact field of it unconditionally - a field
+  # left from the slot's previous occupant is a contact that differs from mj_collision's (which rebuilds the list)
+  nslot = r_live.check_slot_records(res, db, db.launch_ctxs())
+  res.floor("contact slot record obligations (R-LIVE.5)", nslot, 30)
+  res.rule_text += "; R-DISPATCH.3: MJ_COLLISION_TABLE (and its run-time reroute) and _PRIMITIVE_COLLISIONS agree; R-LIVE.5: every slot allocator (re)defines every Contact field, unconditionally and over its full extent"
